@@ -381,10 +381,13 @@ func (c *controlConn) reconnect() {
 		return
 	}
 
-	err = c.session.refreshRing()
-	if err != nil {
-		c.session.logger.Printf("gocql: unable to refresh ring: %v\n", err)
-	}
+	// reconnect can run on the ring refresher's own goroutine (refresh query -> exec ->
+	// closeWithError -> HandleError): waiting here for a refresh would wait for ourselves.
+	go func() {
+		if err := c.session.refreshRing(); err != nil {
+			c.session.logger.Printf("gocql: unable to refresh ring: %v\n", err)
+		}
+	}()
 }
 
 func (c *controlConn) attemptReconnect() (*Conn, error) {
